@@ -15,6 +15,7 @@ CHECK = {
                   "and the hand-written reference (validated against the RFC 7638 §3.1 and an RFC 7520 P-521 vector). Interoperability facts outside the statement "
                   "(ECDH-ES Z padding, CBC-HMAC tag length split, width of EC 'd') are recorded as observations only.",
     "parts": [
+        {"name": "foreign", "pkg": "verifharness/prop/c16", "run": "^TestVerif_C16_Foreign$", "timeout": {"quick": 600, "thorough": 3600}},
         {"name": "sign", "pkg": "verifharness/prop/c16", "run": "^TestVerif_C16_Sign$",
          "timeout": {"quick": 900, "thorough": 5400}},
         {"name": "encrypt", "pkg": "verifharness/prop/c16", "run": "^TestVerif_C16_Encrypt$",
